@@ -43,13 +43,18 @@ SumOver(w, S, acc) == IF S = {} THEN acc
 WSum(w, S) == SumOver(w, S, 0)
 WTotal(w) == WSum(w, DOMAIN w)
 
-(* authorized spends: sequence of [l |-> ledger, a |-> amount, lim |-> limit in force] *)
+(* authorized spends: sequence of [l |-> ledger, a |-> amount authorized in that ledger, lim |-> limit *)
+(* in force at the last of them], one entry per ledger, in ledger order                                *)
 RECURSIVE SpentFrom(_, _, _)
 SpentFrom(sp, i, lo) == IF i > Len(sp) THEN 0
                         ELSE (IF sp[i].l >= lo THEN sp[i].a ELSE 0) + SpentFrom(sp, i + 1, lo)
 \* sum of the authorized amounts in the `per` consecutive ledgers ending at `now`
 InWindow(sp, now, per) == SpentFrom(sp, 1, now - per + 1)
 Recent(sp, now, per) == SelectSeq(sp, LAMBDA s : s.l >= now - per + 1)
+Spend(sp, now, amt, lim) ==
+  IF sp # <<>> /\ sp[Len(sp)].l = now
+  THEN [sp EXCEPT ![Len(sp)] = [l |-> now, a |-> @.a + amt, lim |-> lim]]
+  ELSE Append(sp, [l |-> now, a |-> amt, lim |-> lim])
 
 (* ghost state --------------------------------------------------------------*)
 \* inst   : a configuration (threshold / limit) is in force
@@ -70,8 +75,7 @@ GNext(g, ev) ==
     [] o.op = "set_weight"    -> [g1 EXCEPT !.w = SetW(g.w, o.who, o.amt)]
     [] o.op = "set_limit"     -> [g1 EXCEPT !.limit = o.amt]
     [] o.op = "enforce" /\ g.fl = "spending" /\ o.ctx = "transfer" ->
-         [g1 EXCEPT !.spends = Append(Recent(g.spends, ev.now, g.per),
-                                      [l |-> ev.now, a |-> o.amt, lim |-> g.limit])]
+         [g1 EXCEPT !.spends = Spend(Recent(g.spends, ev.now, g.per), ev.now, o.amt, g.limit)]
     [] OTHER                  -> g1
 
 (* what the threshold policies must answer ------------------------------------*)
